@@ -161,6 +161,9 @@ def main():
         nviol += 1
         exit_code = 1
     level = getattr(mod, "LEVEL", "proof")
+    if level not in ("exploration", "fault_enumeration", "model_checking", "proof", "translation_validation", "other"):
+        res.extra["level_detail"] = level
+        level = "proof"
     res.extra["known_findings_reported"] = sorted(s for s in seen if s in known_sigs)
     common.write_evidence(ctx, res, level, obligations, discharged, axioms, theorems, nviol)
     print("%s %s tier=%s seed=%d evaluations=%d nontrivial=%d obligations=%d/%d wall=%.1fs -> %s" % (
